@@ -193,6 +193,8 @@ def build_objects(spec):
     inp.costs.update(float_costs(costs))
     objs = [inp]
     src = spec["source"]
+    if src == "input":
+        return objs
     if src == "model":
         m, lab = spec["mapping"], spec.get("labelling")
         if fam == "plain":
@@ -287,6 +289,14 @@ COSTS = [(0, 1, 1, 1, 1), (1, 2, INF, 1, 0)]
 def plan(tier, seed):
     out = []
     quick = tier == "quick"
+    from ..refmodel.trees import schroeder_shapes
+    for no in range(2, (4 if quick else 5) + 1):
+        for ns in range(1, 4):
+            for osh in schroeder_shapes(no):
+                for ssh in schroeder_shapes(ns):
+                    if T(osh).is_binary() and T(ssh).is_binary():
+                        continue
+                    out.append({"slice": "poly-inputs", "mode": "poly-input", "osh": osh, "ssh": ssh, "full_colours": False})
     for osh, ssh in spaces.shape_pairs(3, 3):
         k = max(1, spaces.count_assignments(osh, ssh) // 2)
         for i in range(k):
@@ -325,6 +335,20 @@ def run_shard(shard, tier, seed):
             samples.append(spec_json(spec))
 
     mode = shard["mode"]
+    if mode == "poly-input":
+        # multifurcating INPUTS (solutions are always binary): child order of every node must survive
+        schemes = list(name_schemes(O, S, {v: S.leaves[0] for v in O.leaves}))
+        cols = colour_menu(O, S, False)[:4]
+        for ai, leafmap in enumerate(spaces.assignments(O, S)):
+            if ai >= 4:
+                break
+            for ci, (ofe, sfe) in enumerate(cols):
+                for fam, leafsyn in (("plain", None), ("ordered", {v: ("a", "b")[: 1 + i % 2] for i, v in enumerate(O.leaves)}),
+                                     ("unordered", {v: ("a", "b")[i % 2:] for i, v in enumerate(O.leaves)})):
+                    run({"source": "input", "family": fam, "osh": osh, "ssh": ssh, "leafmap": leafmap, "leafsyn": leafsyn,
+                         "naming": schemes[(ai + ci) % len(schemes)], "ofeats": ofe, "sfeats": sfe, "costs": COSTS[ci % 2]})
+        return {"evaluations": n_eval, "nontrivial": nt, "samples": samples, "violations": viols, "violations_total": vtotal,
+                "counters": counters}
     colours = colour_menu(O, S, shard["full_colours"])
     schemes = list(name_schemes(O, S, {v: S.leaves[0] for v in O.leaves}))
     if mode == "solver":
